@@ -3,11 +3,12 @@
    line is given to the real `pna` in a sandbox, the observed outcome is rendered in the format below.
 
    extract <flags> <runs> <outhex> <entries> <fs0>
-       flags   : 1 overwrite | 2 keep-permission | 4 unguarded (the code before the C09 repairs)
+       flags   : 1 overwrite | 2 keep-permission | 4 unguarded (the code before the C09 repairs) | 8 keep-xattr
        runs    : how many times the same extraction is run
        outhex  : the output directory, an absolute path such as /S/out
-       entries : comma list of  mode:kind:namehex:datahex:perm   (mode a = written through the API,
-                 whose EntryReference normalises link data once more; r = raw chunks; perm - or decimal)
+       entries : comma list of  mode:kind:namehex:datahex:perm[:xattrs]   (mode a = written through the API,
+                 whose EntryReference normalises link data once more; r = raw chunks; perm - or decimal;
+                 xattrs = namehex=valuehex;... or empty)
        fs0     : comma list of  pathhex:kind:datahex:mode  (kind f d l; parents first; the root exists)
      -> OK <rc,rc,...> <pathhex,...>   exit status of every run (0 / 1) and the sorted absolute paths
         whose observation (kind, content, mode, write stamp, inode, link target) changed; `-` = none
@@ -56,6 +57,13 @@ Fixpoint dedup (l : list bytes) : list bytes :=      (* on a sorted list *)
 (* ---- extract ---------------------------------------------------------------------------- *)
 Definition testbit (n : N) (k : N) : bool := N.testbit n k.
 
+Definition parse_xattrs (s : bytes) : list (bytes * bytes) :=
+  match s with
+  | [] => []
+  | _ => map (fun kv => let p := fields eqsign kv in (unhex0 (nth 0 p []), unhex0 (nth 1 p [])))
+             (fields semi s)
+  end.
+
 Definition parse_entry (s : bytes) : xentry :=
   let fs_ := fields colon s in
   let g i := nth i fs_ [] in
@@ -64,7 +72,7 @@ Definition parse_entry (s : bytes) : xentry :=
   let api := bytes_eqb (g 0%nat) (lit "a") in
   mk_xentry (unhex0 (g 2%nat)) kind
             (if api && (N.eqb kind 2 || N.eqb kind 3) then normalize_reference data else data)
-            (optdec (g 4%nat)) None [].
+            (optdec (g 4%nat)) None (parse_xattrs (g 5%nat)).
 
 Definition add_node (f : fs) (s : bytes) : fs :=
   let fs_ := fields colon s in
@@ -103,17 +111,11 @@ Definition run_extract_case (args : list bytes) : bytes :=
   let out := abs_comps (unhex0 (g 2%nat)) in
   let arch := map parse_entry (list_field (g 3%nat)) in
   let f0 := fold_left add_node (list_field (g 4%nat)) root_fs in
-  let o := mk_xopts (testbit flags 0) (testbit flags 1) false false (negb (testbit flags 2)) in
+  let o := mk_xopts (testbit flags 0) (testbit flags 1) false (testbit flags 3) (negb (testbit flags 2)) in
   let (f1, rcs) := run_times runs o out arch f0 in
   lit "OK " ++ cat [list_or_dash rcs; list_or_dash (map hex (changed_paths f0 f1))].
 
 (* ---- roundtrip ---------------------------------------------------------------------------- *)
-Definition parse_xattrs (s : bytes) : list (bytes * bytes) :=
-  match s with
-  | [] => []
-  | _ => map (fun kv => let p := fields eqsign kv in (unhex0 (nth 0 p []), unhex0 (nth 1 p [])))
-             (fields semi s)
-  end.
 Definition show_xattrs (xs : list (bytes * bytes)) : bytes :=
   join [semi] (map (fun kv => hex (fst kv) ++ [eqsign] ++ hex (snd kv)) xs).
 
